@@ -7,8 +7,121 @@ import (
 
 	"github.com/hashicorp/hcl/v2"
 	"github.com/hashicorp/hcl/v2/ext/dynblock"
+	"github.com/hashicorp/hcl/v2/ext/typeexpr"
+	"github.com/hashicorp/hcl/v2/gohcl"
 	"github.com/hashicorp/hcl/v2/hcldec"
+	"github.com/hashicorp/hcl/v2/hclsyntax"
+	"github.com/zclconf/go-cty/cty"
 )
+
+// Go structs for the reflection-driven decoder.
+type gInner struct {
+	R      *cty.Value `hcl:"r,optional"`
+	Remain hcl.Body   `hcl:",remain"`
+}
+
+type gB0 struct {
+	P      *cty.Value     `hcl:"p,optional"`
+	Q      hcl.Expression `hcl:"q,optional"`
+	Inner  []gInner       `hcl:"inner,block"`
+	Remain hcl.Body       `hcl:",remain"`
+}
+
+type gB1 struct {
+	Name   string     `hcl:"name,label"`
+	P      *cty.Value `hcl:"p,optional"`
+	Remain hcl.Body   `hcl:",remain"`
+}
+
+type gRoot struct {
+	A0     *cty.Value     `hcl:"f0a0,optional"`
+	A1     *cty.Value     `hcl:"f0a1,optional"`
+	A2     hcl.Expression `hcl:"f1a0,optional"`
+	B0     []gB0          `hcl:"b0,block"`
+	B1     []gB1          `hcl:"b1,block"`
+	Remain hcl.Body       `hcl:",remain"`
+}
+
+func dumpPtrVal(v *cty.Value) string {
+	if v == nil {
+		return "<unset>"
+	}
+	return dumpVal(*v)
+}
+
+func dumpExprRange(e hcl.Expression) string {
+	if e == nil {
+		return "<unset>"
+	}
+	return e.Range().String()
+}
+
+func dumpGRoot(g *gRoot, ra hcl.Attributes, rd hcl.Diagnostics) string {
+	var b strings.Builder
+	fmt.Fprintf(&b, "a0=%s a1=%s a2=%s", dumpPtrVal(g.A0), dumpPtrVal(g.A1), dumpExprRange(g.A2))
+	for _, x := range g.B0 {
+		fmt.Fprintf(&b, " b0{p=%s q=%s", dumpPtrVal(x.P), dumpExprRange(x.Q))
+		for _, in := range x.Inner {
+			fmt.Fprintf(&b, " inner{r=%s}", dumpPtrVal(in.R))
+		}
+		b.WriteString("}")
+	}
+	for _, x := range g.B1 {
+		fmt.Fprintf(&b, " b1{%q p=%s}", x.Name, dumpPtrVal(x.P))
+	}
+	if g.Remain != nil {
+		fmt.Fprintf(&b, " remain{%s !%s}", dumpAttrs(ra), dumpDiags(rd))
+	}
+	return b.String()
+}
+
+func dumpStatic(e hcl.Expression) string {
+	var b strings.Builder
+	if l, d := hcl.ExprList(e); !d.HasErrors() {
+		fmt.Fprintf(&b, "list[%d]:", len(l))
+		for _, x := range l {
+			b.WriteString(x.Range().String() + ",")
+		}
+	} else {
+		b.WriteString("list!" + dumpDiags(d))
+	}
+	if m, d := hcl.ExprMap(e); !d.HasErrors() {
+		fmt.Fprintf(&b, " map[%d]:", len(m))
+		for _, kv := range m {
+			b.WriteString(kv.Key.Range().String() + "=>" + kv.Value.Range().String() + ",")
+		}
+	} else {
+		b.WriteString(" map!" + dumpDiags(d))
+	}
+	if c, d := hcl.ExprCall(e); !d.HasErrors() {
+		fmt.Fprintf(&b, " call %s(%d) %s", c.Name, len(c.Arguments), c.NameRange)
+	} else {
+		b.WriteString(" call!" + dumpDiags(d))
+	}
+	if t, d := hcl.AbsTraversalForExpr(e); !d.HasErrors() {
+		b.WriteString(" abs " + dumpTraversals([]hcl.Traversal{t}))
+	} else {
+		b.WriteString(" abs!" + dumpDiags(d))
+	}
+	if t, d := hcl.RelTraversalForExpr(e); !d.HasErrors() {
+		b.WriteString(" rel " + dumpTraversals([]hcl.Traversal{t}))
+	} else {
+		b.WriteString(" rel!" + dumpDiags(d))
+	}
+	b.WriteString(" kw=" + hcl.ExprAsKeyword(e))
+	if u := hcl.UnwrapExpression(e); u != nil {
+		b.WriteString(" unwrap=" + u.Range().String())
+	}
+	if n, ok := e.(hclsyntax.Node); ok {
+		b.WriteString(" synvars=" + dumpTraversals(hclsyntax.Variables(n.(hclsyntax.Expression))))
+	}
+	if ty, d := typeexpr.TypeConstraint(e); !d.HasErrors() {
+		b.WriteString(" type=" + ty.GoString())
+	} else {
+		b.WriteString(" type!" + dumpDiags(d))
+	}
+	return b.String()
+}
 
 func maskSchema(full *hcl.BodySchema, mask uint64) (sel, rest *hcl.BodySchema) {
 	sel, rest = &hcl.BodySchema{}, &hcl.BodySchema{}
@@ -59,11 +172,14 @@ func dumpContent(c *hcl.BodyContent) string {
 	return b.String()
 }
 
-// execOp performs one public-API call and renders its complete outcome.
-func (w *World) execOp(t int, op OpM) (out string) {
+// execOp performs one public-API call and returns its complete outcome as a
+// closure that renders it.  Rendering uses fmt and sorting, i.e. code with its
+// own synchronisation; it is deferred until the simulated phase is over so
+// that the tasks themselves execute nothing but the call under test.
+func (w *World) execOp(t int, op OpM) (out func() string) {
 	defer func() {
 		if r := recover(); r != nil {
-			out = fmt.Sprintf("PANIC: %v", r)
+			out = func() string { return fmt.Sprintf("PANIC: %v", r) }
 		}
 	}()
 	ctx := w.taskCtx[t]
@@ -77,32 +193,33 @@ func (w *World) execOp(t int, op OpM) (out string) {
 			w.rs.pt[t].probes[pNilCtxSplat]++
 		}
 		v, d := e.Value(c)
-		return "value " + name + " = " + dumpVal(v) + " !" + dumpDiags(d)
+		return func() string { return "value " + name + " = " + dumpVal(v) + " !" + dumpDiags(d) }
 	case "variables":
 		e, name := w.expr(op.Expr)
-		return "variables " + name + " = " + dumpTraversals(e.Variables())
+		tv := e.Variables()
+		return func() string { return "variables " + name + " = " + dumpTraversals(tv) }
 	case "content":
 		be := w.body(op.Target)
 		sel, _ := maskSchema(w.kindSchema(be.kind), op.Mask|op.Mask>>7)
 		c, d := be.body.Content(sel)
-		return "content " + dumpContent(c) + " !" + dumpDiags(d)
+		return func() string { return "content " + dumpContent(c) + " !" + dumpDiags(d) }
 	case "partial":
 		be := w.body(op.Target)
 		sel, rest := maskSchema(w.kindSchema(be.kind), op.Mask)
 		c, remain, d := be.body.PartialContent(sel)
 		c2, d2 := remain.Content(rest)
-		return "partial " + dumpContent(c) + " !" + dumpDiags(d) + " || remain " + dumpContent(c2) + " !" + dumpDiags(d2)
+		return func() string { return "partial " + dumpContent(c) + " !" + dumpDiags(d) + " || remain " + dumpContent(c2) + " !" + dumpDiags(d2) }
 	case "just_attrs":
 		be := w.body(op.Target)
 		a, d := be.body.JustAttributes()
-		return "just_attrs " + dumpAttrs(a) + " !" + dumpDiags(d)
+		return func() string { return "just_attrs " + dumpAttrs(a) + " !" + dumpDiags(d) }
 	case "decode":
 		v, d := hcldec.Decode(root(), w.spec, ctx)
-		return "decode " + dumpVal(v) + " !" + dumpDiags(d)
+		return func() string { return "decode " + dumpVal(v) + " !" + dumpDiags(d) }
 	case "partial_decode":
 		v, remain, d := hcldec.PartialDecode(root(), w.spec, ctx)
 		a, d2 := remain.JustAttributes()
-		return "partial_decode " + dumpVal(v) + " !" + dumpDiags(d) + " || remain " + dumpAttrs(a) + " !" + dumpDiags(d2)
+		return func() string { return "partial_decode " + dumpVal(v) + " !" + dumpDiags(d) + " || remain " + dumpAttrs(a) + " !" + dumpDiags(d2) }
 	case "expand_decode":
 		var opts []dynblock.ExpandOption
 		if op.Check {
@@ -110,17 +227,68 @@ func (w *World) execOp(t int, op OpM) (out string) {
 		}
 		eb := dynblock.Expand(root(), ctx, opts...)
 		v, d := hcldec.Decode(eb, w.spec, ctx)
-		return "expand_decode " + dumpVal(v) + " !" + dumpDiags(d)
+		return func() string { return "expand_decode " + dumpVal(v) + " !" + dumpDiags(d) }
 	case "shared_expand_decode":
 		eb := w.expanded[op.Target%len(w.expanded)]
 		v, d := hcldec.Decode(eb, w.spec, ctx)
-		return "shared_expand_decode " + dumpVal(v) + " !" + dumpDiags(d)
+		return func() string { return "shared_expand_decode " + dumpVal(v) + " !" + dumpDiags(d) }
 	case "dec_vars":
-		return "dec_vars " + dumpTraversals(hcldec.Variables(root(), w.spec))
+		tv := hcldec.Variables(root(), w.spec)
+		return func() string { return "dec_vars " + dumpTraversals(tv) }
 	case "expand_vars":
-		return "expand_vars " + dumpTraversals(dynblock.VariablesHCLDec(root(), w.spec)) + " | " + dumpTraversals(dynblock.ExpandVariablesHCLDec(root(), w.spec))
+		tv1 := dynblock.VariablesHCLDec(root(), w.spec)
+		tv2 := dynblock.ExpandVariablesHCLDec(root(), w.spec)
+		return func() string { return "expand_vars " + dumpTraversals(tv1) + " | " + dumpTraversals(tv2) }
+	case "gohcl":
+		var g gRoot
+		d := gohcl.DecodeBody(root(), ctx, &g)
+		var ra hcl.Attributes
+		var rd hcl.Diagnostics
+		if g.Remain != nil {
+			ra, rd = g.Remain.JustAttributes()
+		}
+		return func() string { return "gohcl " + dumpGRoot(&g, ra, rd) + " !" + dumpDiags(d) }
+	case "gohcl_expr":
+		e, name := w.expr(op.Expr)
+		var v cty.Value
+		d := gohcl.DecodeExpression(e, ctx, &v)
+		return func() string { return "gohcl_expr " + name + " = " + dumpVal(v) + " !" + dumpDiags(d) }
+	case "static":
+		e, name := w.expr(op.Expr)
+		st := dumpStatic(e) // static analysis calls are the ops here; they return plain data
+		return func() string { return "static " + name + " " + st }
+	case "merge_content":
+		m := hcl.MergeBodies([]hcl.Body{w.rootTarget(op.Target), w.rootTarget(op.Expr)})
+		sel, _ := maskSchema(w.kindSchema("root"), op.Mask|op.Mask>>5|op.Mask>>11)
+		c, rem, d := m.PartialContent(sel)
+		a, d2 := rem.JustAttributes()
+		return func() string { return "merge_content " + dumpContent(c) + " !" + dumpDiags(d) + " || " + dumpAttrs(a) + " !" + dumpDiags(d2) }
+	case "spec_misc":
+		sch := hcldec.ImpliedSchema(w.spec)
+		var b strings.Builder
+		for _, a := range sch.Attributes {
+			fmt.Fprintf(&b, "%s/%v,", a.Name, a.Required)
+		}
+		var bs []string
+		for _, x := range sch.Blocks {
+			bs = append(bs, fmt.Sprintf("%s%v", x.Type, x.LabelNames))
+		}
+		sort.Strings(bs)
+		ct := hcldec.ChildBlockTypes(w.spec)
+		var cts []string
+		for k := range ct {
+			cts = append(cts, k)
+		}
+		sort.Strings(cts)
+		as := strings.Split(b.String(), ",")
+		sort.Strings(as)
+		sr := hcldec.SourceRange(root(), w.spec)
+		return func() string {
+			return "spec_misc attrs=" + strings.Join(as, ",") + " blocks=" + strings.Join(bs, ",") + " children=" + strings.Join(cts, ",") + " range=" + sr.String()
+		}
 	case "implied_type":
-		return "implied_type " + hcldec.ImpliedType(w.spec).GoString()
+		ity := hcldec.ImpliedType(w.spec)
+		return func() string { return "implied_type " + ity.GoString() }
 	}
-	return "unknown op " + op.Kind
+	return func() string { return "unknown op " + op.Kind }
 }
